@@ -307,7 +307,7 @@ pub fn codec(out: &mut Out, count: u64) {
     // Maximum QoS x requested QoS x downgrade x retain, with properties and correlation data;
     // the publish goes out and is acknowledged.
     let mut g = Vec::new();
-    for mq in [0u8, 1] {
+    for mq in [0u8, 1, 2] {
         for qos in 0..3u8 {
             for dg in [false, true] {
                 for retain in [false, true] {
@@ -593,7 +593,7 @@ pub fn invalid(out: &mut Out, count: u64) {
         extras.push(it);
     }
     // Maximum QoS x requested QoS x downgrade.
-    for mq in [None, Some(0u8), Some(1)] {
+    for mq in [None, Some(0u8), Some(1), Some(2)] {
         for qos in 0..3u8 {
             for dg in [false, true] {
                 let mut cfg = base.clone();
